@@ -22,7 +22,8 @@ const (
 	protocolOfflineID                  = "cmp/presign-offline"
 	protocolOnlineID                   = "cmp/presign-online"
 	protocolFullID                     = "cmp/presign-full"
-	protocolOfflineRounds round.Number = 7
+	// the abort round that identifies a wrong chi share is round 8, so messages for round 8 must be accepted
+	protocolOfflineRounds round.Number = 8
 	protocolFullRounds    round.Number = 8
 )
 
